@@ -39,6 +39,8 @@ type extOp struct {
 	V   string `json:"v,omitempty"`
 	W   string `json:"w,omitempty"`
 	K   int    `json:"k,omitempty"`
+	// Held: this write goes through the handle that an earlier Hold call opened on the file and kept
+	Held bool `json:"held,omitempty"`
 }
 
 type extCfg struct {
@@ -89,6 +91,7 @@ func extParams(cfg extCfg) *ext4.Params {
 }
 
 type extRun struct {
+	kept            map[string]filesystem.File // handles opened by Hold and not used yet
 	straddleReached bool // the Straddle macro brought the lowest free block to the last block of a group
 	manyExtentsDone int  // extents the ManyExtents macro reached
 	fullReached     bool // the Full macro got a write refused
@@ -280,7 +283,7 @@ func linkClass(t string) string {
 }
 
 func (r *extRun) event(op extOp, res, panicked string, same []int) map[string]any {
-	ev := map[string]any{"a": op.A, "p": op.P, "off": op.Off, "len": op.Len, "tag": op.Tag, "t": op.T, "v": op.V, "w": op.W, "k": op.K, "res": res, "panic": panicked}
+	ev := map[string]any{"a": op.A, "p": op.P, "off": op.Off, "len": op.Len, "tag": op.Tag, "t": op.T, "v": op.V, "w": op.W, "k": op.K, "res": res, "panic": panicked, "held": op.Held}
 	api, attrs, extra := r.project(r.vol.FS)
 	ev["api"], ev["attrs"] = api, attrs
 	re, err := r.vol.Reopen()
@@ -382,6 +385,15 @@ func (r *extRun) do(op extOp) map[string]any {
 			if err == nil {
 				err = f.Close()
 			}
+		case "Hold":
+			var f filesystem.File
+			f, err = fs.OpenFile(real, os.O_RDWR)
+			if err == nil {
+				if r.kept == nil {
+					r.kept = map[string]filesystem.File{}
+				}
+				r.kept[op.P] = f
+			}
 		case "WriteAt", "Append":
 			flag := os.O_RDWR
 			off := op.Off
@@ -390,13 +402,19 @@ func (r *extRun) do(op extOp) map[string]any {
 				off = r.sizeU[op.P]
 			}
 			var f filesystem.File
-			f, err = fs.OpenFile(real, flag)
-			if err != nil {
-				return
+			if kf, ok := r.kept[op.P]; ok && op.Held {
+				// the handle was opened some calls ago and has been kept open since
+				f = kf
+				delete(r.kept, op.P)
+			} else {
+				f, err = fs.OpenFile(real, flag)
+				if err != nil {
+					return
+				}
 			}
 			defer f.Close()
 			lo, hi := r.unit(off), r.unit(off+op.Len)
-			if op.A == "WriteAt" {
+			if op.A == "WriteAt" || op.Held {
 				if _, err = f.Seek(lo, io.SeekStart); err != nil {
 					return
 				}
@@ -1231,6 +1249,9 @@ func extExec(cfg extCfg, ops []extOp) ([]map[string]any, error) {
 	evs := []map[string]any{ev0}
 	for _, op := range ops {
 		evs = append(evs, r.do(op))
+	}
+	for _, f := range r.kept {
+		f.Close()
 	}
 	return evs, nil
 }
